@@ -114,7 +114,11 @@ func nonInterferencePart(name string, quick, thorough int) sup.Part {
 		if (c.Local/4)%2 == 1 {
 			// an index over a body property is created on a sibling collection of the busy bucket: an operation addressed
 			// to that collection, which must change nothing c0 returns or accepts (raw, non-JSON bodies included)
-			if err := busy.Env.Buckets[0].Colls[0][1].CreateIndex("ix_n", "body->>'$.n'", ""); err == nil {
+			filter := ""
+			if (c.Local/8)%2 == 1 {
+				filter = "body->>'$.t' = 'a' OR body->>'$.t' = 'b'" // a filter expression with a top-level OR
+			}
+			if err := busy.Env.Buckets[0].Colls[0][1].CreateIndex("ix_n", "body->>'$.n'", filter); err == nil {
 				c.Count("indexes_created_on_a_sibling_collection", 1)
 			}
 		}
@@ -194,4 +198,55 @@ func nonInterferencePart(name string, quick, thorough int) sup.Part {
 		c.Cell(fmt.Sprintf("noninterference|%s|handles=%d", ifStr(cfg.Disk, "disk", "mem"), cfg.Handles))
 		c.Sample(map[string]any{"config": cfg, "ops_on_c0": onA, "ops_on_other_collections": onOthers})
 	}}
+}
+
+// failedViewQueryScenario (C11): on a sibling collection a view query fails part-way (include_docs over a document
+// whose body is not JSON). That is an operation addressed to the sibling: every other collection of the bucket must
+// go on answering. Decided as bounded progress: each probe call gets 10 s.
+func failedViewQueryScenario(c *sup.Ctx) {
+	r := rng.New(c.Seed, rng.HashString("C11failedview"), uint64(c.Local))
+	cfg := kv.Config{Disk: c.Local%2 == 1, Buckets: 1, Handles: 1, Colls: 2}
+	sim, err := kv.NewSim(c, r, cfg, kv.SimOptions{})
+	if err != nil {
+		c.Incon("cannot set up scenario: " + err.Error())
+		return
+	}
+	defer sim.Close()
+	c0, c1 := sim.Env.Buckets[0].Colls[0][0], sim.Env.Buckets[0].Colls[0][1]
+	ctx := context.Background()
+	dd := &sgbucket.DesignDoc{Language: "javascript", Views: sgbucket.ViewMap{"ids": sgbucket.ViewDef{Map: `function(doc, meta) { emit(meta.id, null); }`}}}
+	if err := c1.PutDDoc(ctx, "fv", dd); err != nil {
+		c.Incon("PutDDoc: " + err.Error())
+		return
+	}
+	_ = c1.SetRaw("raw", 0, nil, []byte("not json at all"))
+	_ = c1.Set("json", 0, nil, []byte(`{"n":1}`))
+	_ = c0.Set("mine", 0, nil, []byte(`{"n":0}`))
+	failed := 0
+	for i := 0; i < 10; i++ {
+		if _, verr := c1.View(ctx, "fv", "ids", map[string]interface{}{"include_docs": true}); verr != nil {
+			failed++
+		}
+		done := make(chan error, 1)
+		go func(i int) {
+			if err := c0.Set("mine", 0, nil, []byte(fmt.Sprintf(`{"n":%d}`, i+1))); err != nil {
+				done <- err
+				return
+			}
+			_, _, err := c0.GetRaw("mine")
+			done <- err
+		}(i)
+		select {
+		case err := <-done:
+			if err != nil {
+				c.Viol([]string{"C11"}, "failed-view-query|sibling-fails", fmt.Sprintf("after %d view queries on the sibling collection (%d of them failed), a write / read of collection c0 fails: %v", i+1, failed, err), map[string]any{"disk": cfg.Disk})
+				return
+			}
+		case <-time.After(10 * time.Second):
+			c.Viol([]string{"C11"}, "failed-view-query|sibling-hangs", fmt.Sprintf("after %d view queries on the sibling collection (%d of them failed with an error), a write to collection c0 does not return within 10 s", i+1, failed), map[string]any{"disk": cfg.Disk, "failed_view_queries": failed})
+			return
+		}
+	}
+	c.Count("view_queries_failing_on_a_sibling_collection", int64(failed))
+	c.Cell(fmt.Sprintf("failed-view-query|%s", ifStr(cfg.Disk, "disk", "mem")))
 }
